@@ -8,11 +8,11 @@ the theorems at `SOURCE_CFG`, and the correspondence check runs the model with t
                         (false: generic arguments stripped)                                                  [D15]
   C17_ONE_PASSTHROUGH   same file: a derived set with exactly one field returns that field's definition
                         (`account_set_defs.len() == 1`, true) or only a #[single_account_set] wrapper does
-                        (`single_set_field.is_some()`, false)                                               [D18]
+                        (`single_set_field.is_some()`, false)                                               [one-field-set]
   C17_NONE_PLACEHOLDER  star_frame/src/account_set/impls/option.rs idl_impl: the `None` alternative of
-                        Option<multi-account set> is `empty_struct()` (false) or the program-id placeholder (true) [D19]
+                        Option<multi-account set> is `empty_struct()` (false) or the program-id placeholder (true) [option-multi-none]
   C17_FALSE_CLEARS      modifiers/{mutable,signer}.rs: client meta `writable: MUT` / `signer: SIGNER` (true) or
-                        `MUT || T::meta().writable` / `SIGNER || T::meta().signer` (false)                   [D20]
+                        `MUT || T::meta().writable` / `SIGNER || T::meta().signer` (false)                   [false-modifier]
   C17_GUARD_BITS        star_frame_idl/src/codama.rs discriminant_to_usize: `discriminant.len() * 8 >` (true) or
                         `discriminant.len() >` (false)                                                       [D11]
 """
